@@ -8,7 +8,7 @@ git -C /repo worktree list | grep -q "$S " || git -C /repo worktree add --detach
 git -C $S checkout -q --detach $(git -C /repo rev-parse HEAD) && git -C $S checkout -q -- . || exit 3
 git -C $S apply /verif/seeded/$NAME/patch.diff || { echo "[seedrun $NAME] patch does not apply to HEAD"; exit 4; }
 cp /verif/evidence/$PROP.json /tmp/evidence_$PROP.keep 2>/dev/null
-cd /verif && VERIF_REPO=$S python3 check.py $PROP --tier quick > /tmp/seedrun_$NAME.log 2>&1; RC=$?
+cd /verif && VERIF_REPO=$S python3 check.py $PROP --tier ${SEED_TIER:-quick} > /tmp/seedrun_$NAME.log 2>&1; RC=$?
 cp /tmp/evidence_$PROP.keep /verif/evidence/$PROP.json 2>/dev/null
 git -C $S checkout -q -- .
 V=$(grep -c "^VIOLATION" /tmp/seedrun_$NAME.log)
@@ -17,6 +17,6 @@ grep "violation:\|crash:" /tmp/seedrun_$NAME.log | cut -c1-220 | head -4
 python3 - <<PY
 import json
 p="/verif/seeded/$NAME/meta.json"; d=json.load(open(p))
-d.update({"check_exit":$RC,"violations_reported":$V,"detected":$RC==1 and $V>0,"check_run":"VERIF_REPO=<scratch worktree of /repo HEAD + patch> python3 check.py $PROP --tier quick"})
+d.update({"check_exit":$RC,"violations_reported":$V,"detected":$RC==1 and $V>0,"check_run":"VERIF_REPO=<scratch worktree of /repo HEAD + patch> python3 check.py $PROP --tier ${SEED_TIER:-quick}"})
 json.dump(d,open(p,"w"),indent=1)
 PY
